@@ -148,7 +148,7 @@ impl C06 {
 impl Property for C06 {
     type Case = Case;
     const ID: &'static str = "C06";
-    const RULE: &'static str = "generated: 1–3 requests as in C05 (echo application), their bytes concatenated, and a segmentation: 0–4 cut points per case biased to the request line, header names/values, between CR and LF, exactly the head/body border, one byte into / before the end of the body, the 1 KiB buffer border, anywhere; request borders either cut or coalesced (two requests in one read); 5 % of the streams start with an empty line, 5 % carry a header value that ends in a bare LF. A scripted AsyncRead returns one segment per call (at most the caller's capacity) and EOF after the last; a share of cases also runs through the real Session::manage over a socketpair, each segment written only after the server consumed the previous one (FIONREAD pacing). Oracle (metamorphic): the response byte stream equals the one under the canonical segmentation (one segment per request). Non-trivial = at least one cut strictly inside a request or one coalesced border; distinct by case.";
+    const RULE: &'static str = "generated: 1–3 requests as in C05 (echo application), their bytes concatenated, and a segmentation: in 8 % of the cases one request trickled in pieces of 1–64 bytes (tens to hundreds of reads for one head), else 0–4 cut points per case biased to the request line, header names/values, between CR and LF, exactly the head/body border, one byte into / before the end of the body, the 1 KiB buffer border, anywhere; request borders either cut or coalesced (two requests in one read); 5 % of the streams start with an empty line, 5 % carry a header value that ends in a bare LF. A scripted AsyncRead returns one segment per call (at most the caller's capacity) and EOF after the last; a share of cases also runs through the real Session::manage over a socketpair, each segment written only after the server consumed the previous one (FIONREAD pacing). Oracle (metamorphic): the response byte stream equals the one under the canonical segmentation (one segment per request). Non-trivial = at least one cut strictly inside a request or one coalesced border; distinct by case.";
     const ASSUMPTIONS: &'static [&'static str] = &[
         "request heads stay below the 1 KiB buffer",
         "sequences with Connection: close only as the last request",
